@@ -87,6 +87,11 @@ def tls_conn(draw, combos=None, max_records=12, max_len=2000, delivery=None, ep=
         spec["abbreviated"] = draw(st.booleans()) if ver != tlsref.TLS13 else False
         spec["grouping"] = draw(st.integers(0, 15))
         spec["cert_len"] = draw(st.sampled_from([10, 300, 1200, 3000]))
+        # the server's handshake flight as one byte stream cut into records of at most hs_frag bytes: messages fragmented across records
+        # and records holding the end of one message and the start of the next (maximum fragment length 2^9..2^14, RFC 6066 / RFC 8449)
+        spec["hs_frag"] = draw(st.sampled_from([0, 0, 0, 512, 700, 2048, 16384]))
+        if spec["hs_frag"]:
+            spec["cert_len"] = draw(st.sampled_from([300, 1200, 3000, 9000, 17000]))
         if ver == tlsref.TLS13:
             spec["hs_secrets"] = draw(st.booleans())
             spec["ccs13"] = draw(st.booleans())
